@@ -645,3 +645,99 @@ Proof.
   - unfold NL. cbn [s2l app]. rewrite <- !app_assoc. reflexivity.
   - apply cm_inert_lit. unfold NL. cbn [app forallb]. rewrite !forallb_app. cbn [forallb]. rewrite Hi, Hzi. reflexivity.
 Qed.
+
+(* ------------------------------------------------------------------ #cmakedefine VAR tok ... (get_cmake_define) *)
+Definition piece (p : str * str) : str := fst p ++ snd p.        (* blanks, then a token *)
+Definition piece_ok (p : str * str) : bool := blank (fst p) && nonempty (fst p) && token (snd p).
+
+Lemma split_ws_pieces : forall (l : list (str * str)) (trail tok : str),
+  blank trail = true -> forallb piece_ok l = true -> token tok = true ->
+  split_ws_aux (rev tok) (concat (map piece l) ++ trail) = tok :: map snd l.
+Proof.
+  induction l as [|[sep t] l IH]; intros trail tok Ht Hl Htok.
+  - cbn [map concat app]. destruct (token_spec tok Htok) as [Hne _].
+    rewrite split_ws_aux_end; [rewrite rev_involutive; reflexivity| |exact Ht].
+    intros E. apply Hne. rewrite <- (rev_involutive tok), E. reflexivity.
+  - cbn [forallb] in Hl. apply andb_true_iff in Hl. destruct Hl as [Hp Hl].
+    unfold piece_ok in Hp. cbn [fst snd] in Hp.
+    apply andb_true_iff in Hp. destruct Hp as [Hp Htt]. apply andb_true_iff in Hp. destruct Hp as [Hsb Hsn].
+    destruct (token_spec tok Htok) as [Hne _]. destruct (token_spec t Htt) as [_ Htc].
+    cbn [map concat]. unfold piece at 1. cbn [fst snd]. rewrite <- !app_assoc.
+    rewrite split_ws_aux_flush; [| |destruct sep; [discriminate|discriminate]|exact Hsb].
+    2:{ intros E. apply Hne. rewrite <- (rev_involutive tok), E. reflexivity. }
+    rewrite rev_involutive. f_equal.
+    rewrite (split_ws_aux_tok t _ _ Htc). rewrite app_nil_r. apply IH; assumption.
+Qed.
+
+Definition cmdefine_line_toks (lead gap mid name : str) (toks : list (str * str)) (trail : str) : str :=
+  lead ++ 35 :: gap ++ s2l "cmakedefine" ++ mid ++ name ++ concat (map piece toks) ++ trail.
+
+Lemma cm_arr_toks (lead gap mid name : str) (toks : list (str * str)) (trail : str) :
+  blank lead = true -> blank gap = true -> blank mid = true -> mid <> [] ->
+  token name = true -> forallb piece_ok toks = true -> blank trail = true ->
+  split_ws (tl (lstrip (cmdefine_line_toks lead gap mid name toks trail)))
+  = s2l "cmakedefine" :: name :: map snd toks.
+Proof.
+  intros Hl Hg Hm Hmn Hn Htk Ht. unfold cmdefine_line_toks. rewrite (lstrip_blank_app lead _ Hl).
+  rewrite lstrip_nonspace by reflexivity. cbn [tl]. unfold split_ws.
+  rewrite (split_ws_aux_blank gap _ Hg).
+  rewrite (split_ws_aux_tok (s2l "cmakedefine") _ _ eq_refl). rewrite app_nil_r.
+  pose proof (split_ws_pieces ((mid, name) :: toks) trail (s2l "cmakedefine") Ht) as E.
+  cbn [map concat forallb] in E. unfold piece at 1 in E. cbn [fst snd] in E. rewrite <- !app_assoc in E.
+  apply E; [|reflexivity]. unfold piece_ok at 1. cbn [fst snd]. rewrite Hm, Hn, Htk.
+  destruct mid; [congruence|reflexivity].
+Qed.
+
+(* the value written after the name: every token that is a key is replaced by str(its value), the
+   others are kept, single blanks in between   (get_cmake_define, universal.py:1629-1636) *)
+Definition cm_token_value (d : conf) (tok : str) : str :=
+  match lookup d tok with Some tv => py_str tv | None => tok end.
+Definition cm_define_value (d : conf) (toks : list str) : str := join [32] (map (cm_token_value d) toks).
+
+(* '#cmakedefine NAME tok ...' for a defined, true NAME: the line "#define NAME <value>" - stripped -
+   goes through the variable substitution of the format once (so @VAR@ / ${VAR} written in the
+   template line are expanded); for all spacings and all token lists *)
+Theorem cmakedefine_tokens at_only d (lead gap mid name : str) (toks : list (str * str)) (trail : str) (v : value) :
+  blank lead = true -> blank gap = true -> blank mid = true -> mid <> [] ->
+  token name = true -> forallb piece_ok toks = true -> blank trail = true ->
+  contains (s2l "cmakedefine01") (cmdefine_line_toks lead gap mid name toks trail) = false ->
+  lookup d name = Some v -> truthy v = true ->
+  do_define_cmake at_only d (cmdefine_line_toks lead gap mid name toks trail)
+  = match subst_cmake at_only d
+            (strip (s2l "#define " ++ name ++ [32] ++ cm_define_value d (map snd toks)) ++ [10]) with
+    | Ok (o, _) => Ok o
+    | MesonErr => MesonErr | PyErr c => PyErr c | OutOfFuel => OutOfFuel
+    end.
+Proof.
+  intros Hl Hg Hm Hmn Hn Htk Ht Hc Hv Htr. unfold do_define_cmake.
+  rewrite (cm_arr_toks lead gap mid name toks trail Hl Hg Hm Hmn Hn Htk Ht). rewrite Hc.
+  cbn [nth_str nth_error negb andb skipn]. rewrite Hv, Htr. cbn [negb andb]. reflexivity.
+Qed.
+
+(* ... and when neither the name nor the value contains '@' or '$' (and the value does not end in a
+   blank) the line is exactly "#define NAME value" *)
+Theorem cmakedefine_tokens_plain at_only d (lead gap mid name : str) (toks : list (str * str)) (trail : str)
+        (v : value) (val : str) (z : char) :
+  blank lead = true -> blank gap = true -> blank mid = true -> mid <> [] ->
+  token name = true -> forallb piece_ok toks = true -> blank trail = true ->
+  contains (s2l "cmakedefine01") (cmdefine_line_toks lead gap mid name toks trail) = false ->
+  lookup d name = Some v -> truthy v = true ->
+  cm_define_value d (map snd toks) = val ++ [z] -> is_space z = false ->
+  forallb cm_inert (name ++ val ++ [z]) = true ->
+  do_define_cmake at_only d (cmdefine_line_toks lead gap mid name toks trail)
+  = Ok (s2l "#define " ++ name ++ [32] ++ val ++ [z] ++ [10]).
+Proof.
+  intros Hl Hg Hm Hmn Hn Htk Ht Hc Hv Htr Hval Hz Hin.
+  rewrite (cmakedefine_tokens at_only d lead gap mid name toks trail v Hl Hg Hm Hmn Hn Htk Ht Hc Hv Htr).
+  rewrite Hval.
+  assert (Es : strip (s2l "#define " ++ name ++ [32] ++ val ++ [z]) = s2l "#define " ++ name ++ [32] ++ val ++ [z]).
+  { change (s2l "#define ") with (35 :: s2l "define "). cbn [app]. rewrite strip_eq by reflexivity.
+    repl (35 :: s2l "define " ++ name ++ 32 :: val ++ [z]) ((35 :: s2l "define " ++ name ++ 32 :: val) ++ [z])
+      ltac:(cbn [app]; rewrite <- !app_assoc; reflexivity).
+    rwn (rstrip_id (35 :: s2l "define " ++ name ++ 32 :: val) z Hz). cbn [app]. rewrite <- !app_assoc. reflexivity. }
+  rwn Es. rewrite cmake_identity_plain.
+  - rewrite <- !app_assoc. reflexivity.
+  - apply cm_inert_lit. rewrite !forallb_app in *. cbn [forallb] in *.
+    apply andb_true_iff in Hin. destruct Hin as [H1 H2]. apply andb_true_iff in H2. destruct H2 as [H2 H3].
+    unfold str, char in *. rewrite H1, H2, H3. reflexivity.
+Qed.
